@@ -196,6 +196,24 @@ def explore(body, start_bb, root_is, mark_pred, init_constraints=None, max_paths
                     if dv_ is not None:
                         nv[l_] = dv_
                         continue
+                if "bin" in rv_ and rv_["bin"] in ("Eq", "Ne"):
+                    # comparison of two values known on this path (e.g. the discriminants a derived `==` compares)
+                    def _known(o_):
+                        if "const" in o_:
+                            return o_["const"].get("value")
+                        p_ = o_.get("copy") or o_.get("move")
+                        if p_ is not None and not p_["proj"]:
+                            v_ = nv.get(p_["l"])
+                            if isinstance(v_, bool):
+                                return int(v_)
+                            if isinstance(v_, int):
+                                return v_
+                        return None
+                    ka_, kb_ = _known(rv_["a"]), _known(rv_["b"])
+                    if ka_ is not None and kb_ is not None:
+                        nv[l_] = int((ka_ == kb_) == (rv_["bin"] == "Eq"))
+                        nv.pop(("a", l_), None)
+                        continue
                 if "un" in rv_ and rv_["un"] == "Not":
                     a_ = rv_["a"].get("copy") or rv_["a"].get("move")
                     if a_ is not None and not a_["proj"] and a_["ty"] == "bool" and nv.get(a_["l"]) in (0, 1, True, False):
@@ -225,6 +243,16 @@ def explore(body, start_bb, root_is, mark_pred, init_constraints=None, max_paths
             # remember which call produced the value held by this local on this path
             nv[tk_["dst"]["l"]] = ("callres", bb)
             nv.pop(("a", tk_["dst"]["l"]), None)
+            fn_ = (tk_.get("func") or {}).get("const", {}).get("fn") or {}
+            if (fn_.get("path") or "").endswith("discriminant_value") and tk_["args"]:
+                # `discriminant_value(&x)` of a value built on this path
+                ap_ = tk_["args"][0].get("move") or tk_["args"][0].get("copy")
+                if ap_ is not None and not ap_["proj"]:
+                    rr_ = nv.get(("ref", ap_["l"]))
+                    tv_ = nv.get(rr_[0]) if rr_ is not None and not rr_[1] else None
+                    dv_ = _discr_value(body, tv_)
+                    if dv_ is not None:
+                        nv[tk_["dst"]["l"]] = dv_
         if nv is not None:
             vals = nv
         if count > max_paths * 50:
@@ -590,6 +618,17 @@ def value_on_path(body, path, local=0, upto=None):
                         base = val(pl["l"], i - 1, hops + 1)
                         if isinstance(base, tuple) and base[0] == "agg" and base[1] == "adt" and base[3] == pl["proj"][0]["downcast"] and base[5]:
                             return base[5][0]
+                    # component of a tuple / struct built on this path (closure arguments travel as a tuple)
+                    if pl is not None and len(pl["proj"]) == 1 and isinstance(pl["proj"][0], dict) and "f" in pl["proj"][0] \
+                            and not pl["proj"][0].get("variant"):
+                        base = val(pl["l"], i - 1, hops + 1)
+                        if isinstance(base, tuple) and base[0] == "agg" and base[1] in ("tuple", "adt") and not base[3]:
+                            k_ = pl["proj"][0]["f"]
+                            if base[1] == "tuple" and k_ < len(base[5]):
+                                return base[5][k_]
+                            nm_ = pl["proj"][0].get("name")
+                            if base[1] == "adt" and nm_ in base[4]:
+                                return base[5][base[4].index(nm_)]
                     # result component of a checked operation computed on this path: `(_t.0)` with _t = Add(a, b)
                     if pl is not None and len(pl["proj"]) == 1 and isinstance(pl["proj"][0], dict) and pl["proj"][0].get("f") == 0 \
                             and not pl["proj"][0].get("variant"):
